@@ -423,8 +423,9 @@ func (s *Sched) Spawn(fn func()) {
 	s.handoff(msg{kind: mSpawn})
 	t := s.newTask
 	if t == nil {
+		// the run has no verdict; fn is not started (an unscheduled goroutine
+		// running instrumented code would talk to the controller out of turn)
 		s.NoteUnsupported("more goroutines than the simulator has room for")
-		go fn()
 		return
 	}
 	t.fn = func(*Task) { fn() }
@@ -583,7 +584,7 @@ func (s *Sched) Run() {
 		}
 	}
 	// room for goroutines the code under test starts itself
-	s.vcN = n + 32
+	s.vcN = n + 256
 	s.vc = make([][]int, s.vcN)
 	for i := range s.vc {
 		s.vc[i] = make([]int, s.vcN)
